@@ -76,14 +76,21 @@ func c15Case(c *vlib.Ctx, e *inproc.Env, idx int) {
 	if idx%37 == 0 {
 		c.Sample(p)
 	}
+	allFiles := map[string]string{}
 	for rel, content := range p.Files {
+		allFiles[rel] = content
+	}
+	for rel, content := range p.PrimerFiles {
+		allFiles[rel] = content
+	}
+	for rel, content := range allFiles {
 		if err := e.WriteRepoFile(rel, content); err != nil {
 			c.Inconclusive("WriteRepoFile: " + err.Error())
 			return
 		}
 	}
 	defer func() {
-		for rel := range p.Files {
+		for rel := range allFiles {
 			_ = os.Remove(filepath.Join(e.RepoDir, rel))
 		}
 	}()
@@ -105,6 +112,18 @@ func c15Case(c *vlib.Ctx, e *inproc.Env, idx int) {
 	}
 	if st.Includes > 0 {
 		c.Count("programs_with_includes", 1)
+	}
+	if ids := outerDependentIterators(p.root); len(ids) > 0 {
+		c.Count("programs_with_inner_range_depending_on_outer_variable", 1)
+		if outerCopiesExpanded(tree, ids) >= 2 {
+			c.Count("programs_with_outer_dependent_range_expanded_2plus_times", 1)
+		}
+	}
+	for _, inj := range p.Injections {
+		if strings.HasPrefix(inj.Kind, "scoped-variable") {
+			c.Count("programs_with_scoped_variable_used_outside_its_scope", 1)
+			break
+		}
 	}
 	if len(p.Injections) > 0 {
 		c.Count("programs_with_injected_errors", 1)
@@ -148,6 +167,33 @@ func c15Case(c *vlib.Ctx, e *inproc.Env, idx int) {
 	}
 	prev := runtime.GOMAXPROCS(procs)
 	defer runtime.GOMAXPROCS(prev)
+
+	// expr-reuse: the primer (same expression texts, variable defined) is loaded first
+	// in this very process, sequentially and concurrently, and must itself load as predicted
+	if p.primer != nil {
+		ptree, preason, pst := Predict(p.primer, Layer{})
+		if len(pst.Errs) > 0 {
+			c.Inconclusive(fmt.Sprintf("generator bug: primer of program %d predicted to fail: %+v", idx, pst.Errs))
+			return
+		}
+		for _, s := range []int{0, 7} {
+			setSwitches(s)
+			root, err := e.Load(p.PrimerName, nil, nil, nil)
+			c.Count("loads", 1)
+			c.Count("primer_loads", 1)
+			if err != nil || root == nil {
+				c.Violation("LOAD", "unexpected-error", fmt.Sprintf("primer program (every variable defined) failed to load under %s: %v", switchName(s), err), id, witness(p, nil))
+				continue
+			}
+			seen := map[string]bool{}
+			for _, f := range diffTree(ptree, preason, workflow.VerifInfo(root), nil) {
+				if !seen[f.Class] {
+					seen[f.Class] = true
+					c.Violation("MODEL", f.Class, fmt.Sprintf("[primer, %s] %s", switchName(s), f.Detail), id, witness(p, nil))
+				}
+			}
+		}
+	}
 
 	var outs []loadOutcome
 	order := r.Perm(8)
@@ -208,6 +254,9 @@ func c15Case(c *vlib.Ctx, e *inproc.Env, idx int) {
 	}
 	if wantErr && len(okLoads) > 0 {
 		detail := fmt.Sprintf("template error(s) at %v: %d of %d loads returned a role tree and a nil error", st.Errs, len(okLoads), len(outs))
+		if strings.Contains(okLoads[0].Dump, "<nil>") {
+			detail += "; the returned tree contains a value rendered as <nil> (an undefined name evaluated without error)"
+		}
 		if len(okLoads) == len(outs) {
 			cl := "error-ignored/" + strings.Join(errFields, "+")
 			c.Violation("LOAD", cl, detail+" (every setting, every repetition)", id, witness(p, outs))
@@ -414,4 +463,71 @@ func rawExprIn(i *workflow.VerifRoleInfo) string {
 		}
 	}
 	return ""
+}
+
+func rangeRefs(it *IterSpec) []string {
+	var out []string
+	out = append(out, it.Begin.Refs()...)
+	out = append(out, it.End.Refs()...)
+	out = append(out, it.Range.Refs()...)
+	return out
+}
+
+// outerDependentIterators returns the ids of iterators whose range refers to an
+// iteration variable of an enclosing iterator, directly or through a per-role list variable.
+func outerDependentIterators(root *Node) map[int]bool {
+	out := map[int]bool{}
+	var walk func(x *Node, outer map[string]bool, lstDep map[string]bool)
+	walk = func(x *Node, outer map[string]bool, lstDep map[string]bool) {
+		o2 := map[string]bool{}
+		for k := range outer {
+			o2[k] = true
+		}
+		l2 := map[string]bool{}
+		for k := range lstDep {
+			l2[k] = true
+		}
+		if x.Iter != nil {
+			for _, ref := range rangeRefs(x.Iter) {
+				if outer[ref] || lstDep[ref] {
+					out[x.ID] = true
+					break
+				}
+			}
+			o2[x.Iter.Var] = true
+		}
+		for _, kv := range x.Vars {
+			for _, ref := range kv.V.Refs() {
+				if o2[ref] {
+					l2[kv.K] = true
+				}
+			}
+		}
+		for _, ch := range x.Children {
+			walk(ch, o2, l2)
+		}
+		if x.Sub != nil {
+			walk(x.Sub, o2, l2)
+		}
+	}
+	walk(root, map[string]bool{}, map[string]bool{})
+	return out
+}
+
+// outerCopiesExpanded: in how many distinct generated parents an outer-dependent
+// iterator produced children (the copies of one iterator must not share a range).
+func outerCopiesExpanded(x *XRole, ids map[int]bool) int {
+	if x == nil {
+		return 0
+	}
+	n := 0
+	for _, c := range x.Children {
+		if ids[c.node.ID] {
+			n = 1
+		}
+	}
+	for _, c := range x.Children {
+		n += outerCopiesExpanded(c, ids)
+	}
+	return n
 }
